@@ -433,11 +433,11 @@ def oracle(ctx, kernel, meta):
         if k in ("copy", "reparse", "import_uuid", "delete_shadow", "insert", "pop"):
             prev = obs
             continue
-        if obs[2] != prev[2]:
-            return {"what": f"{k}: identifier/note of the ACL changed from {prev[2]} to {obs[2]}"}
+        if obs[3] != prev[3]:
+            return {"what": f"{k}: identifier/note of the ACL changed from {prev[3]} to {obs[3]}"}
         before = _leaf_tags(prev)
         after = _leaf_tags(obs)
-        lines_b = dict(zip([t[0] for t in _leaf_seq(prev)], prev[0][1:]))
+        lines_b = dict(zip([t[0] for t in _leaf_seq(prev)], prev[1][1:]))
         split = k == "ungroup_ports" or (k == "platform" and op[1] == "nxos")
         for (i, nt) in before.items():
             if i in after:
@@ -458,7 +458,7 @@ def oracle(ctx, kernel, meta):
 
 def _leaf_seq(obs):
     out = []
-    for t in obs[3]:
+    for t in obs[4]:
         if t and t[0] == "group":
             out += [tuple(x) for x in t[5]]
         else:
